@@ -195,8 +195,8 @@ void h_RowSingleton(void)
 void w_FixVariable(PS_PARAMS, int m_j, int m_old_j, double m_val, double m_obj, double m_lower, double m_upper, int m_correctIdx,
                    int* col_idx, double* col_val, int col_n)
 __CPROVER_requires(PS_WF && COL_SHIFT_REQ && SV_WF(col_idx, col_val, col_n) && g_n == col_n)
-__CPROVER_requires(GHOST_COL && GHOST_ROW && g_out == (SV_HAS(col_idx, col_n, g_kr) ? 1 : 0))
-__CPROVER_assigns(GP_ALL, gp_i1, W(x), W(s), W(r), W(cst))
+__CPROVER_requires(GHOST_COL && GHOST_ROW && g_in == (SV_HAS(col_idx, col_n, g_kr) ? 1 : 0))
+__CPROVER_assigns(GP_ALL, W(x), W(s), W(r), W(cst))
 __CPROVER_ensures(NONBASIC(cst[m_j]))                                                        /* (a),(d) */
 __CPROVER_ensures(m_correctIdx ==> COL_DELTA == 0)
 __CPROVER_ensures(m_correctIdx ==> COL_SHIFT_UNDO)                                           /* (b) */
@@ -211,6 +211,109 @@ void h_FixVariable(void)
    PS_LOCALS; int m_j, m_old_j, m_correctIdx, col_n; double m_val, m_obj, m_lower, m_upper; int* col_idx; double* col_val;
    havoc_ghosts();
    w_FixVariable(PS_ARGS, m_j, m_old_j, m_val, m_obj, m_lower, m_upper, m_correctIdx, col_idx, col_val, col_n);
+   CANARY();
+}
+#endif
+
+/* ------------------------------------------------------------------------------------------- */
+#ifdef INST_ForceConstraint
+/* re-inserts forcing row m_i.  Columns of the row that the row had fixed (status FIXED, m_fixed[k]) go back
+ * to ON_LOWER/ON_UPPER (non-basic -> non-basic).  Then either one of them (g_out = cBasisCandidate, exported
+ * from the body) becomes BASIC with reduced cost 0 and the row is non-basic, or the row is BASIC with
+ * dual = row objective: exactly one more BASIC entry.
+ * Pre (constructor): m_objs, m_fixed, m_cols, m_oldLowers, m_oldUppers have one entry per row nonzero.
+ * Pre (SVector type invariant): the row's indices are pairwise distinct. */
+#define COLN_OK(k) (0 <= cols_n[k] && cols_n[k] <= CAP)
+void w_ForceConstraint(PS_PARAMS, int m_i, int m_old_i, double m_lRhs, int* row_idx, double* row_val, int row_n, double* objs,
+                       _Bool* fixed, int* cols_idx, double* cols_val, int* cols_n, int m_lhsFixed, int m_maxSense,
+                       double* oldLo, double* oldUp, double m_lhs, double m_rhs, double m_rowobj)
+__CPROVER_requires(PS_WF && ROW_SHIFT_REQ && SV_WF(row_idx, row_val, row_n) && g_n == row_n && GHOST_DIMS)
+__CPROVER_requires(__CPROVER_is_fresh(objs, CAP * sizeof(double)) && __CPROVER_is_fresh(fixed, CAP * sizeof(_Bool))
+                   && __CPROVER_is_fresh(oldLo, CAP * sizeof(double)) && __CPROVER_is_fresh(oldUp, CAP * sizeof(double))
+                   && __CPROVER_is_fresh(cols_idx, CAP * CAP * sizeof(int)) && __CPROVER_is_fresh(cols_val, CAP * CAP * sizeof(double))
+                   && __CPROVER_is_fresh(cols_n, CAP * sizeof(int)) && ALLK(COLN_OK))
+__CPROVER_requires(SV_DISTINCT(row_idx, row_n))
+__CPROVER_requires(GHOST_COL && GHOST_ROW && g_in == (SV_HAS(row_idx, row_n, g_kc) ? 1 : 0))
+__CPROVER_assigns(GP_ALL, W(y), W(s), W(r), W(cst), W(rst))
+/* (a) */
+__CPROVER_ensures(g_out == -1 || (0 <= g_out && g_out < nC))
+__CPROVER_ensures(g_out == -1 ==> (rst[m_i] == BASIC && B(cst[g_kc]) == B(v_cs)))
+__CPROVER_ensures(g_out >= 0 ==> ((rst[m_i] == ON_LOWER || rst[m_i] == ON_UPPER) && cst[g_out] == BASIC && r[g_out] == 0.0))
+__CPROVER_ensures((g_out >= 0 && g_kc == g_out) ==> v_cs == FIXED)
+__CPROVER_ensures((g_out >= 0 && g_kc != g_out) ==> B(cst[g_kc]) == B(v_cs))
+__CPROVER_ensures(ROW_SHIFT_UNDO)                                                            /* (b) */
+__CPROVER_ensures(rst[m_i] == BASIC ==> SAME(y[m_i], m_rowobj))                              /* (d) */
+__CPROVER_ensures(SAME(s[m_i], m_lRhs))
+__CPROVER_ensures(DEFINED(v_cs) ==> DEFINED(cst[g_kc]))
+__CPROVER_ensures(cst[g_kc] == v_cs || (v_cs == FIXED && g_in && (cst[g_kc] == ON_LOWER || cst[g_kc] == ON_UPPER || cst[g_kc] == BASIC)))
+__CPROVER_ensures((g_kr != m_i && g_kr != m_old_i) ==> ROW_UNCHANGED)                        /* (c) */
+__CPROVER_ensures(!g_in ==> COL_UNCHANGED)
+__CPROVER_ensures(SAME(x[g_kc], v_x))
+;
+void h_ForceConstraint(void)
+{
+   PS_LOCALS; int m_i, m_old_i, row_n, m_lhsFixed, m_maxSense; double m_lRhs, m_lhs, m_rhs, m_rowobj;
+   int* row_idx; double* row_val; double* objs; _Bool* fixed; int* cols_idx; double* cols_val; int* cols_n; double* oldLo; double* oldUp;
+   havoc_ghosts();
+   w_ForceConstraint(PS_ARGS, m_i, m_old_i, m_lRhs, row_idx, row_val, row_n, objs, fixed, cols_idx, cols_val, cols_n, m_lhsFixed, m_maxSense,
+                     oldLo, oldUp, m_lhs, m_rhs, m_rowobj);
+   CANARY();
+}
+#endif
+
+/* ------------------------------------------------------------------------------------------- */
+#ifdef INST_FreeZeroObjVariable
+/* re-inserts column m_j (zero objective, free in one direction) together with ALL rows it occurs in
+ * (m_col, n = col_n rows, indices sorted ascending; they were removed largest index first).
+ * Among the n re-inserted rows and the column exactly n entries are BASIC: either every row and the column
+ * sits on its bound, or the binding row g_out (= domIdx, exported from the body) is non-basic and the column is BASIC.
+ * Row index undo: for k = 0..n-1 in this order  entry[t+k] := entry[m_col.index(k)],  t = m_old_i-n+1.  Proved
+ * here: every entry t+k that is not itself a re-inserted row and whose source m_col.index(k) lies below t ends
+ * up with the source's old contents (one-step moves).  NOT covered: chained moves (a source that lies in the
+ * tail [t, m_old_i], i.e. one of the removed rows was among the last n rows).
+ * Pre (constructor/call site): m_lRhs, m_rowObj, m_rows have n entries; m_col sorted by index, indices <= m_old_i;
+ * all stored row objectives are 0 (handleRowObjectives() has moved row objectives into columns before any step
+ * is recorded) - with that, `y[idx] = m_rowObj[idx]` (which looks the row objective up under the ROW INDEX instead
+ * of the position k, a latent slip) still yields the row objective. */
+#define ROWN_OK(k) (0 <= rows_n[k] && rows_n[k] <= CAP)
+#define COLIDX_OK(k) ((k) >= col_n || (0 <= col_idx[k] && col_idx[k] <= m_old_i))
+#define ROBJ_ZERO(k) ((k) >= col_n || robj_val[k] == 0.0)
+#define T0 (m_old_i - col_n + 1)
+#define EXP_DOM_STATUS(k) (m_loFree ? (col_val[k] > 0 ? ON_UPPER : ON_LOWER) : (col_val[k] > 0 ? ON_LOWER : ON_UPPER))
+void w_FreeZeroObjVariable(PS_PARAMS, int m_j, int m_old_j, int m_old_i, double m_bnd, int* col_idx, double* col_val, int col_n,
+                           int* lrhs_idx, double* lrhs_val, int* robj_idx, double* robj_val,
+                           int* rows_idx, double* rows_val, int* rows_n, int m_loFree)
+__CPROVER_requires(PS_WF && COL_SHIFT_REQ && 0 <= m_old_i && m_old_i < nR && SV_WF(col_idx, col_val, col_n) && 1 <= col_n && 0 <= T0)
+__CPROVER_requires(__CPROVER_is_fresh(lrhs_idx, CAP * sizeof(int)) && __CPROVER_is_fresh(lrhs_val, CAP * sizeof(double))
+                   && __CPROVER_is_fresh(robj_idx, CAP * sizeof(int)) && __CPROVER_is_fresh(robj_val, CAP * sizeof(double))
+                   && __CPROVER_is_fresh(rows_idx, CAP * CAP * sizeof(int)) && __CPROVER_is_fresh(rows_val, CAP * CAP * sizeof(double))
+                   && __CPROVER_is_fresh(rows_n, CAP * sizeof(int)) && ALLK(ROWN_OK))
+__CPROVER_requires(SV_SORTED(col_idx, col_n) && ALLK(COLIDX_OK) && ALLK(ROBJ_ZERO))
+__CPROVER_requires(g_n == col_n && g_n2 == T0 && GHOST_DIMS && g_a == m_j && g_b == m_old_j)
+__CPROVER_requires(GHOST_COL && GHOST_ROW && g_in == (SV_HAS(col_idx, col_n, g_kr) ? 1 : 0))
+__CPROVER_requires(0 <= g_k2 && g_k2 < col_n && SAME(v_s2, s[col_idx[g_k2]]) && SAME(v_y2, y[col_idx[g_k2]]) && v_rs2 == rst[col_idx[g_k2]]
+                   && g_in2 == (SV_HAS(col_idx, col_n, T0 + g_k2) ? 1 : 0) && g_exp == EXP_DOM_STATUS(g_k2) && v_cs2 == cst[m_j])
+__CPROVER_assigns(GP_ALL, W(x), W(y), W(s), W(r), W(cst), W(rst))
+/* (a),(d): n BASIC entries among the n rows and the column */
+__CPROVER_ensures(-1 <= g_out && g_out < col_n)
+__CPROVER_ensures(cst[m_j] == (g_out == -1 ? (m_loFree ? ON_UPPER : ON_LOWER) : BASIC) && r[m_j] == 0.0)
+__CPROVER_ensures((rst[col_idx[g_k2]] == BASIC) == (g_k2 != g_out))
+__CPROVER_ensures(g_k2 == g_out ==> rst[col_idx[g_k2]] == EXP_DOM_STATUS(g_k2))
+__CPROVER_ensures(y[col_idx[g_k2]] == 0.0 && SAME(y[col_idx[g_k2]], robj_val[g_k2]))
+/* (b) */
+__CPROVER_ensures(COL_SHIFT_UNDO)
+__CPROVER_ensures((col_idx[g_k2] < T0 && !g_in2) ==> (SAME(s[T0 + g_k2], v_s2) && SAME(y[T0 + g_k2], v_y2) && rst[T0 + g_k2] == v_rs2))
+/* (c) */
+__CPROVER_ensures((g_kr < T0 && !g_in) ==> ROW_UNCHANGED)
+__CPROVER_ensures((g_kc != m_j && g_kc != m_old_j) ==> COL_UNCHANGED)
+;
+void h_FreeZeroObjVariable(void)
+{
+   PS_LOCALS; int m_j, m_old_j, m_old_i, col_n, m_loFree; double m_bnd;
+   int* col_idx; double* col_val; int* lrhs_idx; double* lrhs_val; int* robj_idx; double* robj_val; int* rows_idx; double* rows_val; int* rows_n;
+   havoc_ghosts();
+   w_FreeZeroObjVariable(PS_ARGS, m_j, m_old_j, m_old_i, m_bnd, col_idx, col_val, col_n, lrhs_idx, lrhs_val, robj_idx, robj_val,
+                         rows_idx, rows_val, rows_n, m_loFree);
    CANARY();
 }
 #endif
